@@ -734,6 +734,148 @@ static inline void bg_set_u__insert(bg_set_u *s, const VertexIndex *xp) {
 }
 static inline void bg_set_u__clear(bg_set_u *s) { s->hasP = s->hasQ = 0; s->restCount = 0; }
 
+/* --------------------------------------------- binary files: std::ifstream / std::ofstream / std::string */
+static inline const char *bg_string__c_str(const bg_string *s) { return &s->unused; }
+static inline void bg_ifstream__ctor_2(bg_ifstream *s, const char *name, int mode) {
+  (void)name; (void)mode;
+  s->base.open = bg_file.openable;
+  s->base.fail = !bg_file.openable;
+  s->nPQ = bg_file.nPQ; s->nQP = bg_file.nQP; s->nOther = bg_file.nOther; s->tail = bg_file.tail;
+  s->otherBound = bg_file.otherBound;
+  s->inrec = 0; s->second = 0;
+  s->avail = bg_file.bytes;
+}
+static inline bg_bool bg_ifstream__is_open(const bg_ifstream *s) { return s->base.open; }
+static inline bg_bool bg_ios__tobool(const bg_ios *s) { return !s->fail; }
+#ifdef BG_STREAM_BYTES
+/* byte level: read n <= 8 bytes from the bytes ahead */
+static inline bg_ifstream *bg_ifstream__read(bg_ifstream *s, char *p, long n) {
+  __CPROVER_assert(n >= 0 && n <= 8, "ABSTRACTION read of at most 8 bytes");
+  if (s->base.fail) return s;
+  if (s->avail >= (bg_size)n) {
+    /* unrolled: k = 0..7 */
+    if (0 < n) p[0] = (char)s->next[0];
+    if (1 < n) p[1] = (char)s->next[1];
+    if (2 < n) p[2] = (char)s->next[2];
+    if (3 < n) p[3] = (char)s->next[3];
+    if (4 < n) p[4] = (char)s->next[4];
+    if (5 < n) p[5] = (char)s->next[5];
+    if (6 < n) p[6] = (char)s->next[6];
+    if (7 < n) p[7] = (char)s->next[7];
+    s->avail -= (bg_size)n;
+  } else {
+    /* short read: the characters that exist are stored, then eofbit|failbit */
+    /* unrolled: k = 0..7 */
+    if (0 < n && (bg_size)0 < s->avail) p[0] = (char)s->next[0];
+    if (1 < n && (bg_size)1 < s->avail) p[1] = (char)s->next[1];
+    if (2 < n && (bg_size)2 < s->avail) p[2] = (char)s->next[2];
+    if (3 < n && (bg_size)3 < s->avail) p[3] = (char)s->next[3];
+    if (4 < n && (bg_size)4 < s->avail) p[4] = (char)s->next[4];
+    if (5 < n && (bg_size)5 < s->avail) p[5] = (char)s->next[5];
+    if (6 < n && (bg_size)6 < s->avail) p[6] = (char)s->next[6];
+    if (7 < n && (bg_size)7 < s->avail) p[7] = (char)s->next[7];
+    s->avail = 0;
+    s->base.fail = 1;
+  }
+  return s;
+}
+#else
+/* record level, little-endian host: field-sized reads only */
+static inline bg_ifstream *bg_ifstream__read(bg_ifstream *s, char *p, long n) {
+  __CPROVER_assert(n == 4, "ABSTRACTION record-level reads are one 32-bit field");
+  __CPROVER_assert(!bg_SYSTEM_IS_BIG_ENDIAN, "ABSTRACTION record level assumes the little-endian host (codec units cover both)");
+  VertexIndex *vp = (VertexIndex *)p;
+  if (s->base.fail) return s;
+  if (s->inrec) {
+    *vp = s->second;
+    s->inrec = 0;
+  } else if (s->nPQ + s->nQP + s->nOther > 0) {
+    int k = nondet_int();
+    BG_ASSUME(k >= 0 && k <= 2 && (k != 0 || s->nPQ > 0) && (k != 1 || s->nQP > 0) && (k != 2 || s->nOther > 0));
+    if (k == 0) { *vp = G_P; s->second = G_Q; s->nPQ--; }
+    else if (k == 1) { *vp = G_Q; s->second = G_P; s->nQP--; }
+    else {
+      VertexIndex a = nondet_vertex(), b = nondet_vertex();
+      BG_ASSUME(!(a == G_P && b == G_Q) && !(a == G_Q && b == G_P) && (bg_size)a < s->otherBound && (bg_size)b < s->otherBound);
+      *vp = a; s->second = b; s->nOther--;
+    }
+    s->inrec = 1;
+  } else if (s->tail >= 4) {
+    /* the first field of the cut record is all there: the read succeeds */
+    *vp = nondet_vertex();
+    s->tail -= 4;
+  } else {
+    /* short read: some bytes of *vp may have been overwritten */
+    *vp = nondet_vertex();
+    s->tail = 0;
+    s->base.fail = 1;
+  }
+  return s;
+}
+#endif
+static inline void bg_ofstream__ctor_2(bg_ofstream *s, const char *name, int mode) {
+  (void)name; (void)mode;
+  s->base.open = bg_file.openable;
+  s->base.fail = !bg_file.openable;
+  s->inrec = 0; s->first = 0; s->lastn = 0;
+  if (bg_file.openable) { /* opened for writing: truncated */
+    bg_file.nPQ = bg_file.nQP = bg_file.nOther = 0; bg_file.tail = 0; bg_file.bytes = 0; bg_file.otherBound = 0;
+  }
+}
+static inline bg_bool bg_ofstream__is_open(const bg_ofstream *s) { return s->base.open; }
+#ifdef BG_STREAM_BYTES
+static inline bg_ofstream *bg_ofstream__write(bg_ofstream *s, const char *p, long n) {
+  __CPROVER_assert(n >= 0 && n <= 8, "ABSTRACTION write of at most 8 bytes");
+  if (s->base.fail) return s;
+  /* unrolled: k = 0..7 */
+  if (0 < n) s->last[0] = (unsigned char)p[0];
+  if (1 < n) s->last[1] = (unsigned char)p[1];
+  if (2 < n) s->last[2] = (unsigned char)p[2];
+  if (3 < n) s->last[3] = (unsigned char)p[3];
+  if (4 < n) s->last[4] = (unsigned char)p[4];
+  if (5 < n) s->last[5] = (unsigned char)p[5];
+  if (6 < n) s->last[6] = (unsigned char)p[6];
+  if (7 < n) s->last[7] = (unsigned char)p[7];
+  s->lastn = (bg_size)n;
+  bg_file.bytes += (bg_size)n;
+  return s;
+}
+#else
+static inline bg_ofstream *bg_ofstream__write(bg_ofstream *s, const char *p, long n) {
+  __CPROVER_assert(n == 4, "ABSTRACTION record-level writes are one 32-bit field");
+  __CPROVER_assert(!bg_SYSTEM_IS_BIG_ENDIAN, "ABSTRACTION record level assumes the little-endian host (codec units cover both)");
+  VertexIndex v = *(const VertexIndex *)p;
+  if (s->base.fail) return s;
+  bg_file.bytes += 4;
+  if (!s->inrec) { s->first = v; s->inrec = 1; bg_file.tail = 4; }
+  else {
+    s->inrec = 0; bg_file.tail = 0;
+    if (s->first == G_P && v == G_Q) bg_file.nPQ++;
+    else if (s->first == G_Q && v == G_P) bg_file.nQP++;
+    else {
+      bg_file.nOther++;
+      if ((bg_size)s->first + 1 > bg_file.otherBound) bg_file.otherBound = (bg_size)s->first + 1;
+      if ((bg_size)v + 1 > bg_file.otherBound) bg_file.otherBound = (bg_size)v + 1;
+    }
+  }
+  return s;
+}
+#endif
+/* std::reverse_copy over at most 8 bytes (the byte-order swap) */
+static inline void bg_reverse_copy_u8(const unsigned char *first, const unsigned char *last, unsigned char *d) {
+  long n = last - first;
+  __CPROVER_assert(n >= 0 && n <= 8, "ABSTRACTION reverse_copy of at most 8 bytes");
+  /* unrolled: k = 0..7 */
+  if (0 < n) d[0] = first[n - 1 - 0];
+  if (1 < n) d[1] = first[n - 1 - 1];
+  if (2 < n) d[2] = first[n - 1 - 2];
+  if (3 < n) d[3] = first[n - 1 - 3];
+  if (4 < n) d[4] = first[n - 1 - 4];
+  if (5 < n) d[5] = first[n - 1 - 5];
+  if (6 < n) d[6] = first[n - 1 - 6];
+  if (7 < n) d[7] = first[n - 1 - 7];
+}
+
 /* --------------------------------------------- std::unordered_set<VertexIndex> (read-only use) */
 /* the element under the cursor: any of the classes still ahead */
 static inline void bg__uset_arrive(bg_uset_it *it) {
